@@ -69,18 +69,22 @@ type Gen struct {
 	Fused     []int // indices of first tokens of statements fused to their predecessor
 	BlockEnds []int // indices of the closing braces of blocks and function bodies
 	// trivia (comments / blank lines attached to tokens)
-	TriviaLeft  int   // how many more tokens may carry trivia
-	TriviaSites int   // 0: statement boundaries only, 1: any token that may follow a line break
-	TriviaKinds int   // number of trivia shapes in use
-	SymComments bool  // comment bytes symbolic (printable) instead of "c"
-	Decorated   []int // indices of tokens carrying trivia
-	site        bool  // the next token is a statement-boundary token
-	noTrivia    int   // >0: inside a for header or while inserting tokens
-	StmtFirst   []int // index of the first token of every statement (in generation order)
+	TriviaLeft    int   // how many more tokens may carry trivia
+	TriviaSites   int   // 0: statement boundaries only, 1: any token that may follow a line break
+	TriviaKinds   int   // number of trivia shapes in use
+	SymComments   bool  // comment bytes symbolic (printable) instead of "c"
+	Decorated     []int // indices of tokens carrying trivia
+	site          bool  // the next token is a statement-boundary token
+	noTrivia      int   // >0: inside a for header or while inserting tokens
+	StmtFirst     []int // index of the first token of every statement (in generation order)
+	Palette       int   // >0: leaves are drawn from the first Palette entries of the expression palette
+	NoBreak       []int // indices of tokens that must not follow a line break (restricted productions)
+	Boundaries    []int // indices of first tokens of statements whose predecessor needs a separator
+	ElseAfterExpr []int // indices of the `else` (or the `;` before it) that follows an expression-ended branch
 }
 
 func NewGen(budget int) *Gen {
-	return &Gen{Budget: budget, force: -1, Atoms: sym.Param("atoms", 2), MaxList: sym.Param("maxlist", 2), Layout: true, nest: []int{NestGlobal}}
+	return &Gen{Budget: budget, force: -1, Palette: sym.Param("palette", 0), Atoms: sym.Param("atoms", 2), MaxList: sym.Param("maxlist", 2), Layout: true, nest: []int{NestGlobal}}
 }
 
 func (g *Gen) emit(v ...int) { g.Dig = append(g.Dig, v...) }
@@ -94,6 +98,9 @@ func (g *Gen) tok(t token.Type, lit string) int {
 	} else {
 		tk.Start = token.Position{Line: symPos("start.line"), Column: symPos("start.col")}
 		tk.End = token.Position{Line: symPos("end.line"), Column: idx}
+	}
+	if g.force == 0 {
+		g.NoBreak = append(g.NoBreak, idx)
 	}
 	switch {
 	case g.force == 0:
@@ -255,6 +262,10 @@ func (g *Gen) Expr(ctx int) {
 		kind = sym.Choose("expr", n)
 	}
 	if kind == eAtom {
+		if g.Palette > 0 {
+			g.paletteExpr(ctx)
+			return
+		}
 		g.atom()
 		return
 	}
@@ -362,6 +373,96 @@ func (g *Gen) Expr(ctx int) {
 			g.emit(0)
 		}
 		g.funcRest()
+	}
+	if paren {
+		g.kw(token.RPAREN)
+	}
+}
+
+// paletteExpr emits one of a fixed palette of small expressions (used when the
+// node budget is exhausted, so that statement structure can be explored with
+// interesting leaves: object/function values, groups, signs, template strings).
+func (g *Gen) paletteExpr(ctx int) {
+	k := sym.Choose("leaf", g.Palette)
+	if mask := sym.Param("palettemask", 0); mask != 0 {
+		// restrict the palette to the entries whose bit is set
+		var sel []int
+		for i := 0; i < 12; i++ {
+			if mask&(1<<uint(i)) != 0 {
+				sel = append(sel, i)
+			}
+		}
+		sym.Assume(k < len(sel))
+		k = sel[k%len(sel)]
+	}
+	levels := []int{lvAtom, lvAssign, lvAtom, lvAtom, lvAtom, lvUnary, lvPostfix, lvMember, lvCall, lvAtom, lvSum, lvAtom}
+	paren := levels[k] < ctx
+	if paren {
+		g.kw(token.LPAREN)
+	}
+	id := func() {
+		g.tok(token.IDENT, "a")
+		g.emit(KIdent)
+	}
+	switch k {
+	case 0:
+		id()
+	case 1:
+		g.emit(KAssign)
+		id()
+		g.kw(token.ASSIGN)
+		g.emit(KObject, 0)
+		g.kw(token.LBRACE)
+		g.kw(token.RBRACE)
+	case 2:
+		g.emit(KFuncExpr, 0, 0, KBlock, 0, KEnd)
+		g.kw(token.FUNCTION)
+		g.kw(token.LPAREN)
+		g.kw(token.RPAREN)
+		g.kw(token.LBRACE)
+		g.BlockEnds = append(g.BlockEnds, g.kw(token.RBRACE))
+	case 3:
+		g.emit(KArray, 1)
+		g.kw(token.LBRACKET)
+		id()
+		g.kw(token.RBRACKET)
+	case 4:
+		g.kw(token.LPAREN)
+		id()
+		g.kw(token.RPAREN)
+	case 5:
+		g.emit(KUnary, int(token.MINUS))
+		g.tok(token.MINUS, "-")
+		id()
+	case 6:
+		g.emit(KPostfix, int(token.INCREMENT))
+		id()
+		g.force = 0
+		g.tok(token.INCREMENT, "++")
+	case 7:
+		g.emit(KMember)
+		id()
+		g.kw(token.DOT)
+		g.tok(token.IDENT, "p")
+		g.emit(KIdent)
+	case 8:
+		g.emit(KCall)
+		id()
+		g.infixOpen(token.LPAREN)
+		g.emit(0)
+		g.kw(token.RPAREN)
+	case 9:
+		// a multi-line backtick string with a space before the line break
+		g.tok(token.RAW_STRING, "r \nq")
+		g.emit(KRaw)
+	case 10:
+		g.emit(KBinary, int(token.PLUS))
+		id()
+		g.tok(token.PLUS, "+")
+		id()
+	default:
+		g.tok(token.STRING, "s")
+		g.emit(KString)
 	}
 	if paren {
 		g.kw(token.RPAREN)
@@ -528,6 +629,7 @@ func (g *Gen) stmtList(n int, closer token.Type) {
 		start := len(g.Toks)
 		ns := g.Stmt(false, false)
 		if needSep {
+			g.Boundaries = append(g.Boundaries, start)
 			g.separate(start)
 		}
 		needSep = ns
@@ -601,6 +703,21 @@ func (g *Gen) insert(at int, t token.Type) {
 	for i := range g.Decorated {
 		if g.Decorated[i] >= at {
 			g.Decorated[i]++
+		}
+	}
+	for i := range g.NoBreak {
+		if g.NoBreak[i] >= at {
+			g.NoBreak[i]++
+		}
+	}
+	for i := range g.Boundaries {
+		if g.Boundaries[i] >= at {
+			g.Boundaries[i]++
+		}
+	}
+	for i := range g.ElseAfterExpr {
+		if g.ElseAfterExpr[i] >= at {
+			g.ElseAfterExpr[i]++
 		}
 	}
 	for i := range g.StmtFirst {
@@ -692,11 +809,12 @@ func (g *Gen) Stmt(body, closed bool) bool {
 		g.kw(token.LPAREN)
 		g.Expr(lvAssign)
 		g.kw(token.RPAREN)
-		hasElse := g.Budget > 0 && sym.Choose("else", 2) == 1
+		hasElse := (g.Budget > 0 || g.Palette > 0) && sym.Choose("else", 2) == 1
 		ns := g.Stmt(true, hasElse)
 		if hasElse {
 			g.emit(1)
 			if ns {
+				g.ElseAfterExpr = append(g.ElseAfterExpr, len(g.Toks))
 				// `;` or a line break must precede else
 				if g.Layout && sym.Choose("elsesep", 2) == 1 {
 					g.force = 1
